@@ -9,8 +9,8 @@ import Mathlib.Tactic.NormNum
 What is PROVED here (for all vectors over any ordered field with a square root, and over ℝ with
 `Real.sqrt`), against definitions regenerated from /repo's headers on every run:
 
-* `Gen.V2/V3/V4.length tmin tmax sqrt v = sqrt (v·v)` for every `v` and every `tmin` — on both sides of the
-  `dot < 2*tmin` threshold; the `lengthTiny` branch `max * sqrt (Σ (xᵢ/max)²)` equals `sqrt (Σ xᵢ²)` and returns
+* `Gen.V2/V3/V4.length tmin tmax sqrt v = sqrt (v·v)` for every `v`, `tmin`, `tmax` — on every side of the
+  guard `dot < 2*tmin || dot > tmax` (squares underflow / overflow); the `lengthTiny` branch `max * sqrt (Σ (xᵢ/max)²)` equals `sqrt (Σ xᵢ²)` and returns
   0 only when every component is 0 (`Lemmas/C08Lemmas.lean`, `Lemmas/C08LemmasV4.lean`: 9 / 129 / 513 paths);
 * `length v = 0 ↔ v = 0`;  `length2 v = dot v v`;
 * all six normalize forms return `v / ‖v‖` for `v ≠ 0` (`IsNormalizedN`: `‖v‖ > 0`, `rᵢ = vᵢ/‖v‖`, `r·r = 1`,
